@@ -58,7 +58,8 @@ def _run(level, cfg, events, var, perm):
     return retryenv.run_scenario(cfg, events, entry=var["entry"], perm=perm,
                                  place=var.get("place", "call"),
                                  async_callbacks=var.get("async_callbacks", False),
-                                 wall=var.get("wall", "jump"))
+                                 wall=var.get("wall", "jump"), atimeout=var.get("atimeout", False),
+                                 loop=var.get("loop", False))
 
 
 def _full(level, cfg):
@@ -232,6 +233,8 @@ FOUR = [{"entry": "Retry", "permute": False, "place": "both"},
         {"entry": "AsyncRetry", "permute": False, "place": "ctor", "async_callbacks": True},
         {"entry": "AsyncRetry", "permute": True, "place": "both", "async_callbacks": "lambda"}]
 
+TIMEOUT_VARIANTS = [{"entry": "Retry", "atimeout": True, "place": "ctor"},
+                    {"entry": "AsyncRetry", "atimeout": True, "loop": True, "async_callbacks": True}]
 WALL = [{"entry": "Retry", "wall": "jump", "wallgroup": "s"},
         {"entry": "Retry", "wall": "frozen", "wallgroup": "s"},
         {"entry": "Retry", "wall": "back", "wallgroup": "s"},
@@ -240,7 +243,7 @@ WALL = [{"entry": "Retry", "wall": "jump", "wallgroup": "s"},
 
 for _p in ("C01", "C02", "C03", "C04", "C05", "C10", "C11", "C13", "C14", "C16"):
     profile(_p, mc=f"RetryMC_{_p}.cfg", export=f"RetryMC_{_p}x.cfg",
-            variants=WALL if _p == "C02" else FOUR,
+            variants=WALL if _p == "C02" else (FOUR + TIMEOUT_VARIANTS if _p in ("C13", "C01") else FOUR),
             n_random={"quick": 1500, "thorough": 40000})
 
 
@@ -278,6 +281,20 @@ def judge(rep: Report, prop: str, traces: list[dict], verdicts: list[dict], orig
     return nonconf
 
 
+def split_runs_n(events):
+    return [e for e in events if e["e"] == "deliver"]
+
+
+def drop_bclassify(trace):
+    """drop the classification Policy.call makes for the breaker after the run has ended"""
+    out = []
+    for i, e in enumerate(trace):
+        if e["e"] == "classify" and i + 1 < len(trace) and trace[i + 1]["e"] == "deliver":
+            continue
+        out.append(e)
+    return out
+
+
 def normalise_classify(predicted, observed):
     """Policy-level entry points classify the raised exception once more for the breaker: the
     predicted trace of M (retry level) is extended by that call when the observation has it."""
@@ -312,6 +329,32 @@ def check(prop: str, tier: str) -> Report:
     nonconf = judge(rep, prop, mism, v1, "S->C replay of a TLC behaviour")
     nonconf_r = judge(rep, prop, rand, v2, "C->S random scenario")
     extra_cov: dict = {}
+    if prop == "C01":
+        # overlapping runs on ONE async policy object: run A is suspended (in its operation or its
+        # back-off sleep) while run B runs to the end; no counter may leak between them
+        ov = []
+        rngo = random.Random(seed() + 101)
+        by_cfg: dict = {}
+        for b in behs:
+            by_cfg.setdefault(b["c"], []).append(b)
+        pool = [(c, bs) for c, bs in by_cfg.items() if configs[c - 1]["budget"] == -1 and len(bs) >= 2]
+        for _ in range(300 if tier == "quick" else 6000):
+            c, bs = pool[rngo.randrange(len(pool))]
+            a, b2 = rngo.sample(bs, 2)
+            if len(split_runs_n(a["h"])) != 1 or len(split_runs_n(b2["h"])) != 1:
+                continue
+            k = rngo.choice([1, 2, 3, 4])
+            ta, tb = retryenv.run_overlap(configs[c - 1], a["h"], b2["h"], switch_at=k,
+                                          entry=rngo.choice(["AsyncRetry", "AsyncPolicy", "AsyncRetryPolicy"]),
+                                          async_callbacks=rngo.choice([True, "lambda"]))
+            for t, pred in ((ta, a["h"]), (tb, b2["h"])):
+                ov.append({"cfg": full_cfg(configs[c - 1]), "ev": t, "predicted": pred,
+                           "variant": {"overlap": True, "switch_at": k}})
+        ovm = [t for t in ov if drop_bclassify(t["ev"]) != t["predicted"]]
+        v4 = tlc_validate("RetryTrace", ovm, f"{prop}-overlap") if ovm else []
+        judge(rep, prop, ovm, v4, "two overlapping runs on one async policy object")
+        extra_cov = {"overlapping_run_pairs": len(ov) // 2, "overlap_mismatches": len(ovm)}
+        n_replayed += len(ov)
     if prop == "C14":
         # the captured timeline must be the metric/log stream: run the execute-style behaviours
         # with capture_timeline and let TLC compare the timeline with the monitor's own record
